@@ -25,7 +25,7 @@ func init() {
 			"(sticky, balance test) isBalanced examines every member: the loops that look for a partition a lighter member could take from a heavier one are left only when they are exhausted or with the verdict `false` — an early `break` declares the assignment balanced without having looked at the remaining members (C13.balance-test). " +
 			"Shared with C08: the eligibility guards of the three strategies (C08.eligible) — a remembered partition that no longer exists, kept in a member's working list, counts towards its size and can never be moved, so the plan stays unbalanced. " +
 			"NOT decided: that range sizes / round-robin totals differ by at most one (floating-point and modular arithmetic), balance in Kafka's sense, the fixed point of re-planning, keep-on-leave and no-shuffle-on-join — these are relations over the algorithm's outputs for all inputs and need execution or a solver.",
-		Rules: []func(*Ctx){c13Range, c13RoundRobin, c13SwapGuard, c13Generation, c13BalanceTest, c08Rules, c08ErrLost, c13AllClaims, c13FreshFlag},
+		Rules: []func(*Ctx){c13Range, c13RoundRobin, c13SwapGuard, c13Generation, c13BalanceTest, c08Rules, c08ErrLost, c13AllClaims, c13FreshFlag, c13MovementsPerPlan},
 	})
 }
 
@@ -852,4 +852,49 @@ func c13FreshFlag(c *Ctx) {
 			c.Check(ok, rule, fn, name, s.Instr(), "isFreshAssignment is "+k.String()+" exactly under the matching test of len(currentAssignment)", "isFreshAssignment is set to "+k.String()+" on a path that has not established the matching test of len(currentAssignment) (the owners returned by prepopulateCurrentAssignments): a re-plan with existing owners is treated as a fresh assignment (or the reverse), partitions are sorted in the wrong order and move between old members when somebody joins", nil)
 		}
 	}
+}
+
+// C13.movements-per-plan: the movement record describes the current plan only.
+func c13MovementsPerPlan(c *Ctx) {
+	p := c.P
+	rule := "C13.movements-per-plan"
+	c.Doc(rule, "stickyBalanceStrategy.Plan stores a fresh partitionMovements value (both maps made anew) into s.movements on every path before anything of the plan is computed (prepopulateCurrentAssignments, balance): the strategy value is shared by all rebalances of a process, and records left from an earlier plan make getTheActualPartitionToBeMoved substitute partitions that have nothing to do with this plan (partitions moved between old members, partitions that no longer exist assigned, members named \"\")")
+	c.Floor(rule, 1)
+	fn := c.NeedFn(rule, "stickyBalanceStrategy.Plan")
+	if fn == nil {
+		return
+	}
+	fresh := func(it Item) bool {
+		st, ok := it.In.(*ssa.Store)
+		if !ok || !StoreTo(nil, "stickyBalanceStrategy.movements")(it) {
+			return false
+		}
+		// the value stored: a struct whose map fields are made here
+		v := st.Val
+		if u, ok := v.(*ssa.UnOp); ok && u.Op == token.MUL {
+			if al, ok := u.X.(*ssa.Alloc); ok {
+				made := 0
+				for _, l := range p.literalsOf(fn, "partitionMovements") {
+					if l.alloc == al {
+						for _, fv := range l.fields {
+							if _, isMake := fv.(*ssa.MakeMap); isMake {
+								made++
+							}
+						}
+					}
+				}
+				return made >= 2
+			}
+		}
+		return false
+	}
+	reg := WholeFn(fn)
+	// literalsOf looks at *T allocations; the composite literal of a struct value is an Alloc of the struct too
+	first := p.CallTo("prepopulateCurrentAssignments")
+	if len(reg.Find(first)) == 0 {
+		c.Unresolved(rule, "prepopulateCurrentAssignments call in Plan")
+		return
+	}
+	it, path := reg.MustPrecede(fresh, first)
+	c.Check(it.IsZero(), rule, fn, "reset-before-planning", nil, "s.movements is reset on every path before planning starts", "Plan can start with the movement records of an earlier plan (s.movements is not reset on every path): stale records steer getTheActualPartitionToBeMoved", path)
 }
